@@ -107,7 +107,7 @@ def main(run, args):
         scripts.append(g.script())
     recs = run_scripts(scripts, timeout=2400)
     failing = []
-    tree_cases, hash_cases = [], {}
+    tree_cases, hash_cases, cache_cases = [], {}, []
     shapes = {"interior_blank": 0, "unmerged": 0, "parents": 0, "commits": 0, "max_leaves": 0}
     for sc, rs in zip(scripts, recs):
         bad = [r for r in rs if r.get("ok") is False or r.get("crash")]
@@ -147,9 +147,12 @@ def main(run, args):
             if r.get("op") == "tree_dump" and r.get("ok"):
                 t, h = r["info"]["tree"], r["info"]["tree_hash"]
                 hash_cases[(t, h)] = {"script": sc["name"], "op": r["i"]}
+                if r["info"].get("snapshot"):
+                    cache_cases.append((r["info"]["snapshot"], len(t) // 2, {"script": sc["name"], "op": r["i"], "who": sc["ops"][r["i"]].get("who")}))
     # ---- model evaluation
     mism = []
     coq_cases = 0
+    empty_caches = [0]
     if model_ready(proofs_ok):
         hc = list(hash_cases.items())
         hc.sort(key=lambda x: len(x[0][0]))
@@ -164,7 +167,14 @@ def main(run, args):
         # parent-hash chains verified from scratch (RFC 9420 7.9.2) on a sample of the exported trees
         # (every non-blank parent; costs a sibling subtree hash per parent, hence small trees)
         psel = [c for c in rng.shuffle(sel) if len(c[0][0]) <= 9000][: (14 if quick else 150)]
-        jobs = [("T", c) for c in tree_cases] + [("H", c) for c in sel] + [("P", c) for c in psel]
+        # every entry of a member's hash cache against the from-scratch hash of its subtree (same byte budget again)
+        used, csel = 0, []
+        for c in rng.shuffle(cache_cases):
+            if used + c[1] > budget:
+                continue
+            used += c[1]
+            csel.append(c)
+        jobs = [("T", c) for c in tree_cases] + [("H", c) for c in sel] + [("P", c) for c in psel] + [("C", c) for c in csel]
         nsh = 16
         shards = [jobs[i::nsh] for i in range(nsh) if jobs[i::nsh]]
 
@@ -176,6 +186,8 @@ def main(run, args):
                 elif kind == "P":
                     (t, h), _ = c
                     exprs.append(f'parent_hash_case 0 "{t}"%string')
+                elif kind == "C":
+                    exprs.append(f'cache_case 0 "{c[0]}"%string')
                 else:
                     (t, h), _ = c
                     exprs.append(f'tree_hash_case 0 "{t}"%string "{h}"%string')
@@ -193,6 +205,11 @@ def main(run, args):
                 if v != 0:
                     if kind == "T":
                         mism.append(dict(c[1], what="model tree differs from the exported tree" if v == 1 else "model refuses / panics on a commit the library applied", code=v))
+                    elif kind == "C":
+                        if v == 3:
+                            empty_caches[0] += 1
+                        else:
+                            failing.append(dict(c[2], what="an entry of the member's hash cache differs from the hash of its subtree recomputed from scratch from the member's own nodes (or the cache has the wrong length)" if v == 1 else "the member's snapshot could not be decoded by the codec model", snapshot=c[0]))
                     elif kind == "P":
                         (t, h), meta = c
                         failing.append(dict(meta, what="a non-blank parent of an exported tree is not parent-hash valid (RFC 9420 7.9.2, verified from scratch)" if v == 1 else "exported tree could not be decoded by the codec model", tree=t))
@@ -200,6 +217,9 @@ def main(run, args):
                         (t, h), meta = c
                         failing.append(dict(meta, what="tree hash in the group context differs from the hash recomputed from the exported tree (RFC 9420 7.8)" if v == 1 else "exported tree could not be decoded by the codec model", tree=t, context_tree_hash=h))
         run.cov["hashes_recomputed_in_coq"] = len(sel)
+        run.cov["whole_hash_caches_checked_in_coq"] = len(csel) - empty_caches[0]
+        if csel and empty_caches[0] == len(csel):
+            broken.append(("generator", "every sampled hash cache was empty"))
         run.cov["parent_hash_chains_verified_in_coq"] = len(psel)
     run.obligation("correspondence: model trees = exported trees; recomputed tree hashes = context tree hashes", not mism and not failing and coq_cases > 0)
     if shapes["interior_blank"] < 3 or shapes["unmerged"] < 3:
